@@ -154,7 +154,8 @@ Section C15.
     step_ok E_eqb sem accts nodes a o rc b = 0 <->
     cl_final a b = true /\ cl_tally b = true /\ cl_ballots a b = true /\ cl_approved sem b = true /\
     cl_rejected sem a b = true /\ cl_special b = true /\ cl_refusal E_eqb accts nodes a o rc b = true /\
-    cl_object accts nodes a b = true /\ cl_header E_eqb a b = true /\ cl_avail a b = true /\ cl_bound a b = true.
+    cl_object accts nodes a b = true /\ cl_header E_eqb a b = true /\ cl_avail a b = true /\ cl_bound a b = true /\
+    cl_index b = true /\ cl_record a b = true.
   Proof. exact (step_ok_zero E_eqb sem e_default). Qed.
 End C15.
 Print Assumptions C15_approved_sound.
